@@ -257,30 +257,39 @@ static Bytes ep_encrypt(Endpoint &e, const Bytes &m, const Bytes &ad, Rng *chunk
     int alg = fam_alg(e.fam);
     GuardBuf c(m.size() + 16, (unsigned)m.size(), page);
     size_t clen = 0;
+    // in page mode every input ends at a PROT_NONE page as well, so that an over-read (also by assembly code) faults
+    GuardBuf gm, ga, gk, gn;
+    const uint8_t *mp = ptr(m), *ap = ptr(ad), *kp = e.key.data(), *np = e.nonce;
+    if (page) {
+        gm.alloc(m.size(), 0, true); gm.set(m); if (!m.empty()) mp = gm.p;
+        ga.alloc(ad.size(), 0, true); ga.set(ad); if (!ad.empty()) ap = ga.p;
+        gk.alloc(e.key.size(), 0, true); gk.set(e.key); kp = gk.p;
+        gn.alloc(16, 0, true); memcpy(gn.p, e.nonce, 16); np = gn.p;
+    }
     switch (fam_cls(e.fam)) {
     case ONE: case SIV:
-        c_encrypt(fam_cls(e.fam), alg, c.p, &clen, ptr(m), m.size(), ptr(ad), ad.size(), e.nonce, e.key.data());
+        c_encrypt(fam_cls(e.fam), alg, c.p, &clen, mp, m.size(), ap, ad.size(), np, kp);
         break;
     case MASK:
-        if (alg == A128) ascon128_masked_aead_encrypt(c.p, &clen, ptr(m), m.size(), ptr(ad), ad.size(), e.nonce, &e.u.mk128);
-        else if (alg == A128A) ascon128a_masked_aead_encrypt(c.p, &clen, ptr(m), m.size(), ptr(ad), ad.size(), e.nonce, &e.u.mk128);
-        else ascon80pq_masked_aead_encrypt(c.p, &clen, ptr(m), m.size(), ptr(ad), ad.size(), e.nonce, &e.u.mk160);
+        if (alg == A128) ascon128_masked_aead_encrypt(c.p, &clen, mp, m.size(), ap, ad.size(), np, &e.u.mk128);
+        else if (alg == A128A) ascon128a_masked_aead_encrypt(c.p, &clen, mp, m.size(), ap, ad.size(), np, &e.u.mk128);
+        else ascon80pq_masked_aead_encrypt(c.p, &clen, mp, m.size(), ap, ad.size(), np, &e.u.mk160);
         break;
     case ISAP:
-        if (alg == A128) ascon128_isap_aead_encrypt(c.p, &clen, ptr(m), m.size(), ptr(ad), ad.size(), e.nonce, &e.u.ik128);
-        else if (alg == A128A) ascon128a_isap_aead_encrypt(c.p, &clen, ptr(m), m.size(), ptr(ad), ad.size(), e.nonce, &e.u.ik128a);
-        else ascon80pq_isap_aead_encrypt(c.p, &clen, ptr(m), m.size(), ptr(ad), ad.size(), e.nonce, &e.u.ik80);
+        if (alg == A128) ascon128_isap_aead_encrypt(c.p, &clen, mp, m.size(), ap, ad.size(), np, &e.u.ik128);
+        else if (alg == A128A) ascon128a_isap_aead_encrypt(c.p, &clen, mp, m.size(), ap, ad.size(), np, &e.u.ik128a);
+        else ascon80pq_isap_aead_encrypt(c.p, &clen, mp, m.size(), ap, ad.size(), np, &e.u.ik80);
         break;
     case INC: {
         size_t pos = 0;
-        if (alg == A128) ascon128_aead_start(&e.u.s128, ptr(ad), ad.size());
-        else if (alg == A128A) ascon128a_aead_start(&e.u.s128a, ptr(ad), ad.size());
-        else ascon80pq_aead_start(&e.u.s80, ptr(ad), ad.size());
+        if (alg == A128) ascon128_aead_start(&e.u.s128, ap, ad.size());
+        else if (alg == A128A) ascon128a_aead_start(&e.u.s128a, ap, ad.size());
+        else ascon80pq_aead_start(&e.u.s80, ap, ad.size());
         while (pos < m.size()) {
             size_t n = chunker ? 1 + (size_t)chunker->below(m.size() - pos) : m.size() - pos;
-            if (alg == A128) ascon128_aead_encrypt_block(&e.u.s128, m.data() + pos, c.p + pos, n);
-            else if (alg == A128A) ascon128a_aead_encrypt_block(&e.u.s128a, m.data() + pos, c.p + pos, n);
-            else ascon80pq_aead_encrypt_block(&e.u.s80, m.data() + pos, c.p + pos, n);
+            if (alg == A128) ascon128_aead_encrypt_block(&e.u.s128, mp + pos, c.p + pos, n);
+            else if (alg == A128A) ascon128a_aead_encrypt_block(&e.u.s128a, mp + pos, c.p + pos, n);
+            else ascon80pq_aead_encrypt_block(&e.u.s80, mp + pos, c.p + pos, n);
             pos += n;
         }
         if (alg == A128) ascon128_aead_encrypt_finalize(&e.u.s128, c.p + m.size());
@@ -289,7 +298,7 @@ static Bytes ep_encrypt(Endpoint &e, const Bytes &m, const Bytes &ad, Rng *chunk
         clen = m.size() + 16;
         break; }
     default: { // C++
-        int r = e.cpp->encrypt(c.p, ptr(m), m.size(), ptr(ad), ad.size());
+        int r = e.cpp->encrypt(c.p, mp, m.size(), ap, ad.size());
         clen = r < 0 ? 0 : (size_t)r;
         break; }
     }
@@ -310,47 +319,55 @@ static int ep_decrypt(Endpoint &e, const Bytes &x, const Bytes &ad, Bytes &m_out
     GuardBuf m(cap, (unsigned)x.size() + 3, page, 0xA5);
     size_t mlen = (size_t)-1;
     int r = 0;
+    GuardBuf gx, ga, gk, gn;
+    const uint8_t *xp = ptr(x), *ap = ptr(ad), *kp = e.key.data(), *np = e.nonce;
+    if (page) {
+        gx.alloc(x.size(), 0, true); gx.set(x); if (!x.empty()) xp = gx.p;
+        ga.alloc(ad.size(), 0, true); ga.set(ad); if (!ad.empty()) ap = ga.p;
+        gk.alloc(e.key.size(), 0, true); gk.set(e.key); kp = gk.p;
+        gn.alloc(16, 0, true); memcpy(gn.p, e.nonce, 16); np = gn.p;
+    }
     switch (fam_cls(e.fam)) {
     case ONE:
-        if (alg == A128) r = ascon128_aead_decrypt(m.p, &mlen, ptr(x), x.size(), ptr(ad), ad.size(), e.nonce, e.key.data());
-        else if (alg == A128A) r = ascon128a_aead_decrypt(m.p, &mlen, ptr(x), x.size(), ptr(ad), ad.size(), e.nonce, e.key.data());
-        else r = ascon80pq_aead_decrypt(m.p, &mlen, ptr(x), x.size(), ptr(ad), ad.size(), e.nonce, e.key.data());
+        if (alg == A128) r = ascon128_aead_decrypt(m.p, &mlen, xp, x.size(), ap, ad.size(), np, kp);
+        else if (alg == A128A) r = ascon128a_aead_decrypt(m.p, &mlen, xp, x.size(), ap, ad.size(), np, kp);
+        else r = ascon80pq_aead_decrypt(m.p, &mlen, xp, x.size(), ap, ad.size(), np, kp);
         break;
     case SIV:
-        if (alg == A128) r = ascon128_siv_decrypt(m.p, &mlen, ptr(x), x.size(), ptr(ad), ad.size(), e.nonce, e.key.data());
-        else if (alg == A128A) r = ascon128a_siv_decrypt(m.p, &mlen, ptr(x), x.size(), ptr(ad), ad.size(), e.nonce, e.key.data());
-        else r = ascon80pq_siv_decrypt(m.p, &mlen, ptr(x), x.size(), ptr(ad), ad.size(), e.nonce, e.key.data());
+        if (alg == A128) r = ascon128_siv_decrypt(m.p, &mlen, xp, x.size(), ap, ad.size(), np, kp);
+        else if (alg == A128A) r = ascon128a_siv_decrypt(m.p, &mlen, xp, x.size(), ap, ad.size(), np, kp);
+        else r = ascon80pq_siv_decrypt(m.p, &mlen, xp, x.size(), ap, ad.size(), np, kp);
         break;
     case MASK:
-        if (alg == A128) r = ascon128_masked_aead_decrypt(m.p, &mlen, ptr(x), x.size(), ptr(ad), ad.size(), e.nonce, &e.u.mk128);
-        else if (alg == A128A) r = ascon128a_masked_aead_decrypt(m.p, &mlen, ptr(x), x.size(), ptr(ad), ad.size(), e.nonce, &e.u.mk128);
-        else r = ascon80pq_masked_aead_decrypt(m.p, &mlen, ptr(x), x.size(), ptr(ad), ad.size(), e.nonce, &e.u.mk160);
+        if (alg == A128) r = ascon128_masked_aead_decrypt(m.p, &mlen, xp, x.size(), ap, ad.size(), np, &e.u.mk128);
+        else if (alg == A128A) r = ascon128a_masked_aead_decrypt(m.p, &mlen, xp, x.size(), ap, ad.size(), np, &e.u.mk128);
+        else r = ascon80pq_masked_aead_decrypt(m.p, &mlen, xp, x.size(), ap, ad.size(), np, &e.u.mk160);
         break;
     case ISAP:
-        if (alg == A128) r = ascon128_isap_aead_decrypt(m.p, &mlen, ptr(x), x.size(), ptr(ad), ad.size(), e.nonce, &e.u.ik128);
-        else if (alg == A128A) r = ascon128a_isap_aead_decrypt(m.p, &mlen, ptr(x), x.size(), ptr(ad), ad.size(), e.nonce, &e.u.ik128a);
-        else r = ascon80pq_isap_aead_decrypt(m.p, &mlen, ptr(x), x.size(), ptr(ad), ad.size(), e.nonce, &e.u.ik80);
+        if (alg == A128) r = ascon128_isap_aead_decrypt(m.p, &mlen, xp, x.size(), ap, ad.size(), np, &e.u.ik128);
+        else if (alg == A128A) r = ascon128a_isap_aead_decrypt(m.p, &mlen, xp, x.size(), ap, ad.size(), np, &e.u.ik128a);
+        else r = ascon80pq_isap_aead_decrypt(m.p, &mlen, xp, x.size(), ap, ad.size(), np, &e.u.ik80);
         break;
     case INC: {
         if (x.size() < 16) { *mlen_rep = 0; *wiped = true; m_out.clear(); g_inc_not_started = true; return -1; } // a receiver cannot even split off a tag: the library is not called
         size_t pos = 0;
-        if (alg == A128) ascon128_aead_start(&e.u.s128, ptr(ad), ad.size());
-        else if (alg == A128A) ascon128a_aead_start(&e.u.s128a, ptr(ad), ad.size());
-        else ascon80pq_aead_start(&e.u.s80, ptr(ad), ad.size());
+        if (alg == A128) ascon128_aead_start(&e.u.s128, ap, ad.size());
+        else if (alg == A128A) ascon128a_aead_start(&e.u.s128a, ap, ad.size());
+        else ascon80pq_aead_start(&e.u.s80, ap, ad.size());
         while (pos < cap) {
             size_t n = chunker ? 1 + (size_t)chunker->below(cap - pos) : cap - pos;
-            if (alg == A128) ascon128_aead_decrypt_block(&e.u.s128, x.data() + pos, m.p + pos, n);
-            else if (alg == A128A) ascon128a_aead_decrypt_block(&e.u.s128a, x.data() + pos, m.p + pos, n);
-            else ascon80pq_aead_decrypt_block(&e.u.s80, x.data() + pos, m.p + pos, n);
+            if (alg == A128) ascon128_aead_decrypt_block(&e.u.s128, xp + pos, m.p + pos, n);
+            else if (alg == A128A) ascon128a_aead_decrypt_block(&e.u.s128a, xp + pos, m.p + pos, n);
+            else ascon80pq_aead_decrypt_block(&e.u.s80, xp + pos, m.p + pos, n);
             pos += n;
         }
-        if (alg == A128) r = ascon128_aead_decrypt_finalize(&e.u.s128, x.data() + cap);
-        else if (alg == A128A) r = ascon128a_aead_decrypt_finalize(&e.u.s128a, x.data() + cap);
-        else r = ascon80pq_aead_decrypt_finalize(&e.u.s80, x.data() + cap);
+        if (alg == A128) r = ascon128_aead_decrypt_finalize(&e.u.s128, xp + cap);
+        else if (alg == A128A) r = ascon128a_aead_decrypt_finalize(&e.u.s128a, xp + cap);
+        else r = ascon80pq_aead_decrypt_finalize(&e.u.s80, xp + cap);
         mlen = cap;
         break; }
     default: {
-        r = e.cpp->decrypt(m.p, ptr(x), x.size(), ptr(ad), ad.size());
+        r = e.cpp->decrypt(m.p, xp, x.size(), ap, ad.size());
         mlen = r < 0 ? 0 : (size_t)r;
         break; }
     }
